@@ -28,8 +28,22 @@ Definition slice_ids (a b : Z) : list Z := map (fun k => a + Z.of_nat k * 1) (se
 Definition lit_end (e : option expr) (default : Z) : option Z :=
   match e with None => Some default | Some (ELit (VInt z)) => Some z | Some _ => None end.
 
+(* an index set r[{i, j, ...}] of integer literals: the bits in the order written, each checked against the register *)
+Fixpoint lit_ints (vals : list expr) : option (list Z) :=
+  match vals with
+  | [] => Some []
+  | ELit (VInt z) :: l => match lit_ints l with Some zs => Some (z :: zs) | None => None end
+  | _ => None
+  end.
+Definition in_size (n i : Z) : bool := (0 <=? i) && (i <? n).
+
 Definition opnd_bits (m : list (string * Z)) (q : qarg) : option (list bitref) :=
   match q with
+  | QIdx r [IdxSet vals] =>
+      match sget r m, lit_ints vals with
+      | Some n, Some zs => if forallb (in_size n) zs then Some (map (fun i => (r, i)) zs) else None
+      | _, _ => None
+      end
   | QId r => match sget r m with
              | Some n => if (1 <=? n) && (n <=? 100000) then Some (reg_bits r n) else None
              | None => None
@@ -76,6 +90,10 @@ Proof.
     { destruct (lit_bit (QIdx r idx)) as [b|]; [|discriminate]. destruct (in_reg m b) eqn:Eb; [|discriminate].
       intros H. injection H as <-. cbn. now rewrite Eb. }
     destruct idx as [|[vals|[|[e|ea eb [ec|]] [|it2 items']]] [|i1 idx']]; try exact Hlit.
+    { destruct (sget r m) as [n|] eqn:Es; [|discriminate]. destruct (lit_ints vals) as [zs|]; [|discriminate].
+      destruct (forallb (in_size n) zs) eqn:Ef; [|discriminate]. intros H. injection H as <-.
+      apply forallb_forall. intros x Hx. apply in_map_iff in Hx as (i & <- & Hi). unfold in_reg. cbn [fst snd]. rewrite Es.
+      eapply forallb_forall in Ef; eauto. }
     destruct (sget r m) as [n|] eqn:Es; [|discriminate].
     destruct (lit_end ea 0) as [a|]; [|discriminate]. destruct (lit_end eb n) as [b|]; [|discriminate].
     match goal with |- (if ?c then _ else _) = _ -> _ => destruct c eqn:C; [|discriminate] end.
@@ -84,6 +102,21 @@ Proof.
     apply andb_true_iff in C as [A0 A1]. apply Z.leb_le in A0, B0. apply Z.ltb_lt in A1, B1.
     apply forallb_forall. intros x Hx. apply in_map_iff in Hx as (i & <- & Hi). apply slice_ids_range in Hi.
     unfold in_reg. cbn [fst snd]. rewrite Es. apply andb_true_iff. split; [apply Z.leb_le|apply Z.ltb_lt]; lia.
+Qed.
+
+Lemma discrete_lits vals : forall zs s, lit_ints vals = Some zs -> discrete_set_values vals s = Ok (zs, s).
+Proof.
+  induction vals as [|e vals IH]; intros zs s H; cbn [lit_ints] in H.
+  - injection H as <-. reflexivity.
+  - destruct e; try discriminate H. destruct v; try discriminate H. destruct (lit_ints vals) as [zs'|]; [|discriminate H]. injection H as <-.
+    unfold discrete_set_values. cbn [mapMM]. rewrite (bind_eq _ _ s z s eq_refl).
+    fold (discrete_set_values vals). rewrite (bind_eq _ _ s zs' s (IH zs' s eq_refl)). reflexivity.
+Qed.
+
+Lemma validate_all n zs : forall s, forallb (in_size n) zs = true -> iterM (fun i => validate_index i n) zs s = Ok (tt, s).
+Proof.
+  induction zs as [|i zs IH]; intros s H; [reflexivity|]. cbn [forallb] in H. apply andb_true_iff in H as [Hi H].
+  cbn [iterM]. rewrite (bind_eq _ _ s tt s); [exact (IH s H)|]. unfold validate_index. unfold in_size in Hi. now rewrite Hi.
 Qed.
 
 Section Ops.
@@ -118,6 +151,17 @@ Proof.
       eapply resolve_literal; eauto; lia. }
     cbn [opnd_bits] in H.
     destruct idx as [|[vals|[|[e|ea eb [ec|]] [|it2 items']]] [|i1 idx']]; try exact (Hlit H).
+    { destruct (sget r (if is_q then e_q env else e_c env)) as [n|] eqn:Hs; [|discriminate].
+      destruct (lit_ints vals) as [zs|] eqn:Ez; [|discriminate]. destruct (forallb (in_size n) zs) eqn:Ef; [|discriminate]. injection H as <-.
+      unfold resolve_one, qarg_name. rewrite (bind_eq _ _ s s s eq_refl).
+      assert (Hm : sget r (if is_q then qreg_sizes s else creg_sizes s) = Some n).
+      { destruct is_q; [rewrite (R_q _ _ R)|rewrite (R_c _ _ R)]; exact Hs. }
+      rewrite Hm. rewrite (bind_eq _ _ s (false, if is_q then qreg_sizes s else creg_sizes s) s eq_refl).
+      assert (Hl : name_in_levels s r = true) by (destruct is_q; [eapply R_lvq|eapply R_lvc]; eauto).
+      rewrite Hl. cbn [guard]. rewrite (bind_eq _ _ s tt s eq_refl). rewrite Hm.
+      rewrite (bind_eq _ _ s zs s); [reflexivity|].
+      rewrite (bind_eq _ _ s zs s (discrete_lits vals zs s Ez)).
+      rewrite (bind_eq _ _ s tt s (validate_all n zs s Ef)). reflexivity. }
     destruct (sget r (if is_q then e_q env else e_c env)) as [n|] eqn:Hs; [|discriminate].
     destruct (lit_end ea 0) as [a|] eqn:Ea; [|discriminate]. destruct (lit_end eb n) as [b|] eqn:Eb; [|discriminate].
     match type of H with (if ?c then _ else _) = _ => destruct c eqn:C; [|discriminate] end. injection H as <-.
@@ -289,6 +333,7 @@ Proof.
       pose proof (lit_bit_name _ _ Eb) as Hn. cbn [qarg_name] in Hn. rewrite Hn. unfold in_reg in Ei.
       destruct (sget (fst b) m) eqn:E; [|discriminate]. eapply smemk_of; eauto. }
     destruct idx as [|[vals|[|[e|ea eb [ec|]] [|it2 items']]] [|i1 idx']]; try exact Hlit.
+    { destruct (sget r m) eqn:E; [|discriminate]. intros _. eapply smemk_of; eauto. }
     destruct (sget r m) eqn:E; [|discriminate]. intros _. eapply smemk_of; eauto.
 Qed.
 
